@@ -326,8 +326,10 @@ func run(c *hl.Ctx) {
 	} else {
 		history(c, 4)
 	}
-	c.Rule("E3 bounded-exhaustive: all 65536 two-byte ASC values; accepted configs (420) x raw lengths; 2-3 frame concatenations; reference-writer frames over id x protection x profile x sfi x channels x header bits x fullness x lengths. Non-trivial = distinct case that decoded successfully to a non-empty raw block (or accepted ASC).")
-	c.Assume("reference ADTS writer/parser written from ISO/IEC 13818-7 6.2 is correct", "payload bytes are a fixed position-dependent pattern with embedded 0xFFF1 lookalikes")
+	objHistory(c)
+	c.Rule("E3 bounded-exhaustive: all 65536 two-byte ASC values; accepted configs (420) x raw lengths; 2-3 frame concatenations; reference-writer frames over id x protection x profile x sfi x channels x header bits x fullness x lengths. Non-trivial = distinct case that decoded successfully to a non-empty raw block (or accepted ASC). Object-history family: one ADTS object goes through every history of depth 0..2 (thorough: 0..3, depth 3 over a thinner alphabet) over {SetASC, write through ASC() - each for the 5 object types x (sfi,channels) in (4,2),(1,1),(12,7); Encode; Decode of a library-encoded frame of each object type or of an ISO-writer frame of each profile x id x protection; 4 failing Decodes; 5 rejected SetASCs}, then decodes one frame out of {library encoder x 420 accepted configs, ISO writer x id x protection x profile x sfi x channels (1008)} (quick, depth 2: only the 85 frames with (sfi,channels) at the corners of the ranges or (4,2)); the raw block, the profile/sfi/channels reported by ASC() afterwards and the header of a following Encode must be those of the frame just decoded. Non-trivial there = all of these held for a distinct (history, frame).")
+	c.Assume("reference ADTS writer/parser written from ISO/IEC 13818-7 6.2 is correct", "payload bytes are a fixed position-dependent pattern with embedded 0xFFF1 lookalikes",
+		"object-history family: history steps outside the statement (failing Decode, rejected SetASC, Encode without a configuration) only put the object into a state, their own results are not judged; the reported ADTS profile is Object.ToProfile() as in the other families")
 	checkASC(c)
 
 	cfgs := accepted()
@@ -477,6 +479,13 @@ func run(c *hl.Ctx) {
 }
 
 func replay(c *hl.Ctx, raw json.RawMessage) {
+	var part struct {
+		Part string `json:"part"`
+	}
+	if json.Unmarshal(raw, &part) == nil && part.Part == "objhist" {
+		replayObjHist(c, raw)
+		return
+	}
 	var cs encCase
 	if err := json.Unmarshal(raw, &cs); err != nil {
 		panic(err)
